@@ -216,6 +216,16 @@ def regenerate_tables():
     except Exception as e:
         tables["py2lean"] = None
         tables["__py2lean_status__"] = {"py2lean": f"unavailable: {type(e).__name__}: {e}"}
+    # whole array functions translated from the Python source (tools/py2lean_vec.py): Generated/PyVec.lean
+    try:
+        import py2lean_vec
+        with lake_lock():
+            st = py2lean_vec.write(REPO, LEAN)
+        tables.update({k: (True if v == "translated" else None) for k, v in st.items()})
+        tables["__py2lean_status__"].update(st)
+    except Exception as e:
+        tables["py2lean_vec"] = None
+        tables["__py2lean_status__"]["py2lean_vec"] = f"unavailable: {type(e).__name__}: {e}"
     return tables
 
 
